@@ -792,7 +792,12 @@ def ia32_movsxd(obj, Mod, REG, RM, data):
     W, R, X, B = getREX(obj)
     # without REX.W the destination has the (16/32-bit) operand size:
     op1 = getregR(obj, REG, 64 if W == 1 else (obj.misc["opdsz"] or 32))
+    opdsz = obj.misc["opdsz"]
+    if W == 1:
+        # REX.W takes precedence over the 66 prefix: the source is r/m32
+        obj.misc["opdsz"] = 32
     op2, data = getModRM(obj, Mod, RM, data, REX=(0, R, X, B))
+    obj.misc["opdsz"] = opdsz
     obj.operands = [op1, op2]
     obj.type = type_data_processing
 
